@@ -11,8 +11,8 @@ CONSTANTS
   UT = 20
   VI = 0
   GRACE = 100
-  MaxNow = 18
-  NR = 2
+  MaxNow = 16
+  NR = 1
   Prio <- AllZero
   TK <- AllFalse
   HN <- AllZero
@@ -25,9 +25,10 @@ CONSTANTS
   MaxConnEv = 0
   MaxApi = 0
   StopKinds <- SK_All
+  OutKinds <- OK_Del
   Faults <- NoFaults
   Dev <- NoDev
 SYMMETRY Sym
 CONSTRAINT NoOverflow
 CHECK_DEADLOCK FALSE
-INVARIANTS NoViolation C02_AtMostOne C02_Backed C08_Mirror C09_Final C18_Consistent C19_Ctx
+INVARIANTS NoViolation C02_AtMostOne C02_Backed C08_Mirror C09_Final C18_Consistent C19_Ctx C03_Bound
